@@ -33,13 +33,16 @@ OUTCOMES = ["ok", "range", "client", "boom", "hang"]
 TIMEOUT_S = 5.0
 
 
+NOT_WORKING: set[int] = set()  # batteries the stub tracker reports as not working (set per execution)
+
+
 class StubTracker:
     def __init__(self, component_ids, **kw):
         self.ids = set(component_ids)
         self.updates = []
 
     def get_working_components(self, comps):
-        return set(comps) & self.ids
+        return (set(comps) & self.ids) - NOT_WORKING
 
     async def update_status(self, ok, failed):
         self.updates.append((set(ok), set(failed)))
@@ -89,10 +92,15 @@ def battery_topology(groups: list[dist.GroupSpec], shared: str | None = None):
     return comps, conns, layout
 
 
-def run_battery(groups: list[dist.GroupSpec], power: float, outcomes: dict[int, str], adjust_power: bool = True):
-    """One execution; returns dict(result, calls, error, tracker_updates, layout)."""
+def run_battery(groups: list[dist.GroupSpec], power: float, outcomes: dict[int, str], adjust_power: bool = True,
+                not_working: frozenset = frozenset(), no_data: frozenset = frozenset()):
+    """One execution; returns dict(result, calls, error, tracker_updates, layout).  ``not_working``: group indexes
+    whose batteries the status tracker reports as not working; ``no_data``: group indexes whose batteries have not
+    sent any data yet.  Both are requested nevertheless."""
     saved = bm.ComponentPoolStatusTracker
     bm.ComponentPoolStatusTracker = StubTracker
+    NOT_WORKING.clear()
+    NOT_WORKING.update(100 * (gi + 1) + bi for gi in not_working for bi in range(len(groups[gi].bats)))
     try:
         comps, conns, layout = battery_topology(groups)
         with virtual_loop(wall=False) as loop, fakes.fake_microgrid(comps, conns) as cm:
@@ -110,6 +118,8 @@ def run_battery(groups: list[dist.GroupSpec], power: float, outcomes: dict[int, 
             # raw per-component data (the manager aggregates them itself)
             for gi, g in enumerate(groups):
                 for bi, b in enumerate(g.bats):
+                    if gi in no_data:
+                        continue
                     api.push(fakes.bat(100 * (gi + 1) + bi, soc=b.soc, cap=b.cap, il=-b.incl * b.lower_scale,
                                        el=-b.excl * b.lower_scale, eu=b.excl, iu=b.incl, sl=b.sl, su=b.su))
                 for ii, i in enumerate(g.invs):
@@ -138,6 +148,7 @@ def run_battery(groups: list[dist.GroupSpec], power: float, outcomes: dict[int, 
             return {"result": out, "calls": calls, "error": err, "updates": updates, "layout": layout,
                     "elapsed": loop.time()}
     finally:
+        NOT_WORKING.clear()
         bm.ComponentPoolStatusTracker = saved
 
 
